@@ -356,7 +356,7 @@ class NCCHReader(TypeReaderCryptoBase):
 
         # checks in case ExeFS is encrypted with the extra keyslot (otherwise, decrypt normally)
         self._exefs_special_handling = False
-        if not self.flags.no_crypto:
+        if not self.flags.no_crypto and not self._assume_decrypted:
             if self.main_keyslot != self.extra_keyslot:
                 self._exefs_special_handling = True
             elif self.flags.uses_seed:
